@@ -215,26 +215,50 @@ package vm
 //@   safety [C03 C14]
 //@ end
 
-//@ func (*vm.Memory).Copy
+// EIP-5656: MCOPY copies like an overlap-safe memmove. The precondition is what the interpreter
+// establishes from the memorySize function of the table entry (memoryMcopy) before it calls execute.
+//@ func (*vm.Memory).Copy(m, dst, src, len)
 //@   verify
 //@   safety [C03 C15]
 //@   requires recv [C03]: m != nil
+//@   requires in-memory [C03 C15]: len == 0 || (math(src) + math(len) <= math(len(m.store)) && math(dst) + math(len) <= math(len(m.store)))
+//@   ensures memmove [C15]: forall i uint64 :: i < len ==> m.store[dst + i] == old(m.store[src + i])
+//@   ensures rest-unchanged [C15]: forall i uint64 :: i < uint64(len(m.store)) && !(i >= dst && i - dst < len) ==> m.store[i] == old(m.store[i])
+//@   ensures same-size [C15]: sameslice(m.store, old(m.store))
+//@   modifies cell:uint8
 //@   witness-bytes mem 512: m.store
 //@   witness dst: dst
 //@   witness src: src
 //@   witness len: len
 //@ end
 
-//@ func vm.memoryMcopy
+//@ func vm.memoryMcopy(stack) (size, overflow)
 //@   verify
 //@   safety [C03 C15]
 //@   requires stack [C03]: stack != nil && len(stack.data) >= 3
+//@   let d = stack.data[len(stack.data) - 1]
+//@   let sr = stack.data[len(stack.data) - 2]
+//@   let n = stack.data[len(stack.data) - 3]
+//@   let m = ite(math(sr) > math(d), math(sr), math(d))
+//@   ensures zero-length [C15]: n == 0 ==> size == 0 && !overflow
+//@   ensures covers-both-ranges [C15]: n != 0 && m + math(n) < 18446744073709551616 ==> !overflow && math(size) == m + math(n)
+//@   ensures overflow-flagged [C15]: n != 0 && m + math(n) >= 18446744073709551616 ==> overflow
 //@ end
 
-//@ func vm.opMcopy
+//@ func vm.opMcopy(ctx, pc, interpreter, scope) (ret, err)
 //@   verify
 //@   safety [C03 C15]
 //@   requires protocol [C03]: opProtocol(interpreter, scope) && len(scope.Stack.data) >= 3
+//@   requires memory-expanded [C03 C15]: top(scope, 2) == 0 || (math(top(scope, 0)) + math(top(scope, 2)) <= math(len(scope.Memory.store)) && math(top(scope, 1)) + math(top(scope, 2)) <= math(len(scope.Memory.store)))
+//@   ghost d0 u256 = top(scope, 0)
+//@   ghost s0_ u256 = top(scope, 1)
+//@   ghost n0 u256 = top(scope, 2)
+//@   ghost copies u64 = 0
+//@   oncall (*vm.Memory).Copy : copies = copies + 1
+//@   assertcall (*vm.Memory).Copy operands [C15]: $0 == scope.Memory && u256($1) == d0 && u256($2) == s0_ && u256($3) == n0
+//@   ensures one-copy [C15]: copies == 1 && ret == nil && err == nil
+//@   ensures pops-three [C15]: len(scope.Stack.data) == old(len(scope.Stack.data)) - 3
+//@   modifies vm.Stack.data, cell:uint8
 //@   witness s0: top(scope, 0)
 //@   witness s1: top(scope, 1)
 //@   witness s2: top(scope, 2)
